@@ -76,4 +76,9 @@ theorem C04_loop_connected_dispatch (sz : Sizes) (C : Crypto) (s : Srv) (t : Int
     refine ⟨C04_loop_dispatch_once sz e.id _ _ acts, ?_⟩
     simp only [lc_pget_pset_self, Option.map_some, C04_loop_dispatch_clears]
 
+/-! non-vacuity: two queued messages give exactly two message events, under the connection's identity, in order -/
+example (sz : Sizes) (c : Conn) :
+    msgEvents (dispatchMsgs sz 7 c [(3, [1, 2]), (4, [])] []).2.2 = [(7, 3, [1, 2]), (7, 4, [])] := by
+  simpa using C04_loop_dispatch_once sz 7 c [(3, [1, 2]), (4, [])] []
+
 end Mpgs.Server
